@@ -14,7 +14,7 @@ func init() {
 		Technique: "effect classification of every registered HTTP handler's call closure (simulation-state accesses) + dominance by the inspection window + lock-set typestate of pauseForInspection and its returned closures",
 		Explanation: "Decides on monitoring2/monitor.go: (window-contract) pauseForInspection returns with engineControlMu still held on every path (no release, no deferred release), having either observed enginePaused or called engine.Pause; each closure it returns releases the mutex exactly once and never re-acquires it, the closure of the path that paused calls engine.Continue before releasing, the closure of the user-paused path does not; " +
 			"(handler-window) for every handler registered in StartServer, every operation in its call closure that reads or writes simulation state — an engine method other than Pause/Continue/Run, a component method other than Name, reflection over a component (goseth Serialize), a buffer's Size/Capacity, starting/stopping the tracer (reads the engine clock) — is dominated in the handler by a pauseForInspection call whose result is deferred; " +
-			"(control-lock) engine.Pause/Continue and the enginePaused flag are touched by the pause/continue/state handlers only with engineControlMu held.",
+			"(control-lock) engine.Pause/Continue and the enginePaused flag are touched by the pause/continue/state handlers only with engineControlMu held. (round-barrier, run-loop) the parallel engine waits for every worker of a round before releasing the pause lock, so Pause returning means no handler is running.",
 		NotDecided:  "that SerialEngine.Pause itself is a quiescent point (C05: known finding) — the window is only as good as the engine's pause; outcome equality after continue.",
 		Assumptions: []string{"HTTP handlers run on their own goroutines concurrently with the engine"},
 	}, runC40)
@@ -65,6 +65,10 @@ func simAccess(call ssa.CallInstruction) string {
 }
 
 func runC40(c *Ctx) {
+	// the inspection window relies on the engine's Pause being a quiescent point:
+	// for the parallel engine, on the round barrier (runRound returns only after
+	// every worker is done) being inside the pause lock
+	c.Sub([]string{"round-barrier", "run-loop"}, runC04)
 	p := c.P
 	scope := p.SrcFuncs(func(pp string) bool { return pp == pkgPath(mon) })
 	inPkg := func(fn *ssa.Function) bool { return pkgOfFn(fn) == pkgPath(mon) }
